@@ -1,6 +1,6 @@
 """C06 — SetSketch cardinality estimate: registers never decrease; the two estimators are the same expression."""
 from .. import hirq, nf
-from ..rulelib import tree_of, writes_to_self, self_method_calls, def_exprs, short
+from ..rulelib import user_nodes, tree_of, writes_to_self, self_method_calls, def_exprs, short
 from . import C04, C05
 
 SS = "setsketcher::SetSketcher::<I, T, H>::"
@@ -52,6 +52,46 @@ def _sum_form(e):
     return None
 
 
+def _loop_sum_form(fn, acc, ds):
+    """`let mut acc = 0.0; for x in REGISTERS.iter() { [immutable lets;] acc = acc + f(x) | acc += f(x) }` — the same sum in the
+    same order as fold(0.0, |acc, x| acc + f(x))"""
+    from ..rulelib import for_loops, resolver_of, loop_exits
+    t = tree_of(fn)
+    R = resolver_of(fn)
+    if nf.nf(ds[0]) not in ("0.0", "0"):
+        return None
+    upd = [n for n in user_nodes(fn) if n["k"] in ("Assign", "AssignOp") and nf.nf(n["l"]) == acc]
+    if len(upd) != 1:
+        return None
+    u = upd[0]
+    fls = [f for f in for_loops(fn) if t.contains(f["body"], u)]
+    if len(fls) != 1 or nf.all_conditions(t, u, stop=fls[0]["loop"]) or [k for (k, n_) in loop_exits(fn, fls[0]["loop"]) if k != "iterator-exhausted"]:
+        return None
+    f = fls[0]
+    # nothing else happens in the loop body: immutable lets and the accumulation
+    body = f["body"]
+    others = [st for st in (body["stmts"] + ([body["expr"]] if "expr" in body else [])) if st is not u and not hirq.in_log_macro(st)
+              and not (st["k"] == "Let" and st["pat"].get("k") == "Bind" and "Mut" not in st["pat"].get("mode", ""))]
+    if others or f["pat"].get("k") != "Bind":
+        return None
+    x = f["pat"]["name"]
+    if u["k"] == "AssignOp" and u["op"] == "+=":
+        term = u["r"]
+    elif u["k"] == "Assign":
+        r = nf.strip(u["r"])
+        if r["k"] != "Binary" or r["op"] != "+":
+            return None
+        if nf.nf(r["l"]) == acc:
+            term = r["r"]
+        elif nf.nf(r["r"]) == acc:
+            term = r["l"]
+        else:
+            return None
+    else:
+        return None
+    return (_container(f["iter"]), _rename(nf.nf(term, alias=ALIAS, res=R), x))
+
+
 def _container(e):
     e = nf.strip(e)
     while e["k"] == "MethodCall" and e["name"] in ("iter", "into_iter", "par_iter", "into_par_iter") and not e["args"]:
@@ -88,6 +128,10 @@ def sib(ctx, facts):
                 ds = def_exprs(fn, x["res"]["name"])
                 if len(ds) == 1:
                     sf = _sum_form(ds[0])
+                    if sf:
+                        sums[x["res"]["name"]] = sf
+                elif len(ds) == 2:
+                    sf = _loop_sum_form(fn, x["res"]["name"], ds)
                     if sf:
                         sums[x["res"]["name"]] = sf
         if len(sums) != 1:
